@@ -466,6 +466,51 @@ FAMILY_TEXTS = {'plss': ['T154N-R97W Sec 14: N/2NE/4', 'T154N-R97W Sec 14: N/2NE
                 'tract': ['N/2NE/4', 'N/2NE/4NE/4, ALL']}
 
 
+def config_obj_reuse_case(acc, cfg_text, kw, kind):
+    """The caller's Config object is a value: after it was used by an object that was parsed with conflicting keywords its text
+    is unchanged, and a second object built from it behaves like one built from the text."""
+    P = _p
+    key = f"cfgobj|{kind}|{cfg_text}|{sorted(kw.items())}"
+    case = {'k': 'cfgobj', 'cfg': cfg_text, 'kw': kw, 'kind': kind}
+    text_a, text_b = ('T154N-R97W Sec 14: N/2NE/4, NE', 'T154N-R97W Sec 15: W/2, SW') if kind == 'plss' else ('N/2NE/4, NE', 'W/2, SW')
+    try:
+        cfg = P.Config(cfg_text)
+        before = cfg.decompile_to_text()
+        if kind == 'plss':
+            d1 = P.PLSSDesc(text_a, config=cfg, wait_to_parse=True)
+            d1.parse(**kw)
+            d1.parse(commit=False, **kw)
+            d1.parse_tracts(**{k: v for k, v in kw.items() if k in PARSE_TRACTS_KW})
+            after = cfg.decompile_to_text()
+            got = snap(P.PLSSDesc(text_b, config=cfg).tracts)
+            want = snap(P.PLSSDesc(text_b, config=cfg_text or None).tracts)
+        else:
+            t1 = P.Tract(text_a, config=cfg)
+            t1.parse(**{k: v for k, v in kw.items() if k != 'parse_qq'})
+            after = cfg.decompile_to_text()
+            got = snap_t(P.Tract(text_b, config=cfg, parse_qq=True))
+            want = snap_t(P.Tract(text_b, config=cfg_text or None, parse_qq=True))
+    except Exception as ex:  # noqa
+        acc.case(key, 'EXC')
+        acc.violation('conflict_exception', f"C13:conflict_exception:cfgobj:{kind}", case, got=f"{type(ex).__name__}: {ex}")
+        return
+    acc.case(key, [after, got])
+    acc.states += 1
+    acc.transitions += 1
+    if after != before:
+        acc.violation('config_object_modified', f"C13:config_object_modified:{kind}:{cfg_text}", case, got=after, exp=before,
+                      note='text of the caller\'s Config object after it was used by an object parsed with keywords')
+    elif got != want:
+        acc.violation('config_object_modified', f"C13:config_object_reuse_differs:{kind}:{cfg_text}", case, got=got, exp=want)
+    else:
+        acc.guard('cfgobj_ok')
+
+
+CFGOBJ_TEXTS = ['', 'qq_depth_min.1', 'n,w', 'clean_qq.False,qq_depth.2', 'parse_qq']
+CFGOBJ_KW = [{'parse_qq': True, 'qq_depth': 2, 'clean_qq': True}, {'qq_depth_min': 3, 'break_halves': True},
+             {'parse_qq': True, 'qq_depth_max': 1}, {'clean_qq': True, 'parse_qq': True}]
+
+
 WAIT_TEXTS = ['T154N-R97W Sec 14: NE/4', 'NE/4 of Section 14, T154N-R97W']
 
 
@@ -531,6 +576,7 @@ def units(tier):
         us.append({'k': 'matrix', 'kind': 'tract', 's': s})
     us.append({'k': 'family'})
     us.append({'k': 'wait'})
+    us.append({'k': 'cfgobj'})
     return us
 
 
@@ -553,6 +599,11 @@ def run_unit(unit, tier):
     elif unit['k'] == 'unknown':
         for nm in unknown_names():
             unknown_case(acc, nm)
+    elif unit['k'] == 'cfgobj':
+        for cfg_text in CFGOBJ_TEXTS:
+            for kw in CFGOBJ_KW:
+                for kind in ('plss', 'tract'):
+                    config_obj_reuse_case(acc, cfg_text, kw, kind)
     elif unit['k'] == 'wait':
         for text in WAIT_TEXTS:
             for how in WAIT_ROUTES:
@@ -600,6 +651,8 @@ def replay(case):
     elif case['k'] == 'matrix':
         matrix_case(acc, case['kind'], case['setting'], case['value'], case['text'])
         return [v for v in acc.viol if v['case']['channel'] == case['channel']]
+    elif case['k'] == 'cfgobj':
+        config_obj_reuse_case(acc, case['cfg'], case['kw'], case['kind'])
     elif case['k'] == 'wait':
         wait_case(acc, case['text'], case['how'])
     elif case['k'] == 'colonfamily':
